@@ -765,6 +765,7 @@ def run(ctx):
     nlive += run_function_imports_and_types(ctx, binary)
     nlive += run_double_exports(ctx, binary)
     nlive += run_identity_and_parent_imports(ctx, binary)
+    nlive += run_rebinds(ctx, binary)
     spec_fail += len(ctx.viol) - before
     ctx.cov["evaluations"] = len(projs) + neg + nlive
     ctx.cov["distinct_nontrivial"] = nontrivial
@@ -791,6 +792,111 @@ def run(ctx):
                        "module identity = normalised path (fixes/import-path-normalise.diff); the grammar admits no usable `..` component",
                        "declared types / non-reassignability of imports are compiler checks outside the loader model: observed on 7 fixed programs only"]
     core.proof_or_search(ctx, ok, ["C11_init_once_in_order", "C11_shared_instance", "C11_exports_write_once"], spec_fail > 0)
+
+
+# ---- (round 6) "importers cannot reassign them": a name bound by `import a from m` is a variable OF THE IMPORTER that starts
+# with the exported value.  Giving that variable another value (assignment, compound assignment, `modify` from a function, in a
+# block) changes nothing for the module's own code, for an importer that goes through the module value and for a later
+# `import a from m`.  Changing the exported OBJECT in place (element, push, field, map slot) is state of the one shared
+# instance and is seen by all (the rule the generated projects already use for `log_j.push`).
+BOX = "export class Box {\n\tv: int\n\tconstructor(self, v: int) {\n\t\tself.v = v\n\t}\n}\n"
+# kind -> (name, declared type, initial value, result type of the views, the value as an expression over X, text printed at first,
+#          [(action, statements, printed by the importer afterwards, printed by everybody else afterwards)])
+REBIND_KINDS = {
+    "int": ("n", "int", "1", "int", "X", "1", [("rebind", "n = 50", "50", "1"), ("compound", "n += 5", "6", "1"), ("compound-times", "n *= 7", "7", "1")]),
+    "str": ("s", "str", '"a"', "str", "X", "a", [("rebind", 's = "zz"', "zz", "a"), ("compound", 's += "!"', "a!", "a")]),
+    "float": ("f", "float", "0.5", "float", "X", "0.5", [("rebind", "f = 2.5", "2.5", "0.5"), ("compound", "f += 2.0", "2.5", "0.5")]),
+    "bool": ("b", "bool", "true", "bool", "X", "true", [("rebind", "b = false", "false", "true")]),
+    "bigint": ("g", "bigint", "B5", "bigint", "X", "5", [("rebind", "g = B77", "77", "5"), ("compound", "g += B1", "6", "5")]),
+    "optional": ("o", "int?", "5", "bool", "X == nil", "false", [("rebind", "none: int? = nil\no = none", "true", "false")]),
+    "list": ("l", "[int...]", "[1, 2]", "int", "X[0] * 100 + X.len()", "102",
+             [("rebind", "fresh: [int...] = [7, 8, 9]\nl = fresh", "703", "102"), ("element", "l[0] = 9", "902", "902"), ("push", "l.push(3)", "103", "103"),
+              ("rebind-then-element", "fresh: [int...] = [7, 8, 9]\nl = fresh\nl[0] = 4", "403", "102")]),
+    "map": ("m", "map[str, int]", 'map[str, int]{"k": 1}', "int", "X.len()", "1",
+            [("rebind", 'm = map[str, int]{"a": 1, "b": 2, "c": 3}', "3", "1"), ("slot", 'm["k2"] = 9', "2", "2")]),
+    "function": ("step", "fn() -> int", "fn() -> int {\n\treturn 10\n}", "int", "X()", "10",
+                 [("rebind", "step = fn() -> int {\n\treturn 99\n}", "99", "10"),
+                  ("wrap", "plain = step\nstep = fn() -> int {\n\treturn plain() + 1000\n}", "1010", "10")]),
+    "closure": ("tick", "fn() -> int", "fn() -> int {\n\tmodify hits = hits + 1\n\treturn hits\n}", "int", "X()", None,
+                [("rebind", "tick = fn() -> int {\n\treturn 0 - 1\n}", None, None)]),
+    "instance": ("box", "Box", "Box(1)", "int", "X.v", "1", [("rebind", "box = Box(50)", "50", "1"), ("field", "box.v = 9", "9", "9"),
+                                                              ("rebind-then-field", "box = Box(50)\nbox.v = 60", "60", "1")]),
+}
+
+
+def rebind_cases():
+    """-> [(id, files, expected stdout lines)]"""
+    out = []
+    for kind, (name, ty, init, vty, expr, first, actions) in sorted(REBIND_KINDS.items()):
+        e = lambda x: expr.replace("X", x)
+        counter = 'print "init counter"\n' + (BOX if kind == "instance" else "") + ("hits = 0\n" if kind == "closure" else "")
+        counter += "export %s: %s = %s\nexport view: fn() -> %s = fn() -> %s {\n\treturn %s\n}\n" % (name, ty, init, vty, vty, e(name))
+        other = 'print "init other"\nimport counter\nexport see: fn() -> %s = fn() -> %s {\n\tt = counter.%s\n\treturn %s\n}\n' % (vty, vty, name, e("t"))
+        if kind in ("function", "closure"):
+            other = 'print "init other"\nimport counter\nexport see: fn() -> %s = fn() -> %s {\n\treturn counter.%s()\n}\n' % (vty, vty, name)
+        third = 'print "init third"\nimport %s from counter\nexport see3: fn() -> %s = fn() -> %s {\n\treturn %s\n}\n' % (name, vty, vty, e(name))
+        for aname, stmts, mine, theirs in actions:
+            wrappers = [("at module level", stmts)]
+            wrappers.append(("inside a block", "if true {\n" + "".join("\t" + l + "\n" for l in stmts.split("\n")) + "}"))
+            if aname == "rebind":
+                ls = stmts.split("\n")          # the last statement is the assignment to the imported name
+                k = max(i for i, l in enumerate(ls) if l.startswith(name + " = "))
+                wrappers.append(("by `modify` from a function", "change = fn() {\n" + "".join("\t" + ("modify " if i == k else "") + l + "\n" for i, l in enumerate(ls)) + "}\nchange()"))
+                wrappers.append(("inside a loop body", "from 0 to 2 {\n" + "".join("\t" + l + "\n" for l in stmts.split("\n")) + "}"))
+            for wname, code in wrappers:
+                names = ("Box, " if kind == "instance" else "") + name
+                for form, imp, view in (("names", "import %s, view from counter\n" % names, "view()"), ("module and names", "import counter\nimport %s from counter\n" % names, "counter.view()"),
+                                        ("names, one statement each", "import view from counter\nimport %s from counter\n" % names, "view()")):
+                    main = 'print "main start"\n' + imp + "import other\nprint %s\n" % e(name) + code + "\nprint %s\nprint %s\nprint other.see()\nimport third\nprint third.see3()\nprint %s\n" % (e(name), view, e(name))
+                    if kind == "closure":
+                        # the exported function counts its calls in the module's own variable: 1 (importer, before), then the module's
+                        # view, the second importer and the third one keep counting 2 3 4; the importer's replacement answers -1
+                        exp = ["main start", "init counter", "init other", "1", "-1", "2", "3", "init third", "4", "-1"]
+                    else:
+                        exp = ["main start", "init counter", "init other", first, mine, theirs, theirs, "init third", theirs, mine]
+                    out.append(("%s export, %s %s, imported as %s" % (kind, aname, wname, form), {"main.ms": main, "counter.ms": counter, "other.ms": other, "third.ms": third}, exp))
+    return out
+
+
+def run_rebinds(ctx, binary):
+    base = ctx.mktemp()
+    cases = rebind_cases()
+
+    def one(c):
+        d = programs.materialize({"files": c[1]}, base)
+        r1 = programs.run_bin(binary, ["run", "main.ms", "-q"], d)
+        d2 = programs.materialize({"files": c[1]}, base)
+        cc = programs.run_bin(binary, ["compile", "main.ms", "--quick"], d2)
+        r2 = programs.run_bin(binary, ["execute", "main.mmm"], d2) if cc[0] == 0 else None
+        shutil.rmtree(d, ignore_errors=True)
+        shutil.rmtree(d2, ignore_errors=True)
+        return r1, cc, r2
+    n = rejected = failing = 0
+    for (cid, files, exp), (r1, cc, r2) in zip(cases, programs.pmap(one, cases)):
+        if cc[0] != 0:
+            rejected += 1
+            why = [l.strip() for l in (cc[1] + cc[2]).splitlines() if l.strip().startswith("=")]
+            ctx.report("generator:rejected", "a fixed program of the rebinding family is refused by the compiler and so checks nothing: %s: %s" % (cid, why[:1]),
+                       {"case": cid, "files": files, "rc": cc[0], "output": (cc[1] + cc[2])[-800:]})
+            continue
+        for how, r in (("run", r1), ("compile + execute", r2)):
+            n += 1
+            got = r[1].split("\n")[:-1]
+            if r[0] == 0 and got == exp:
+                continue
+            others = [i for i in (5, 6, 8) if i < len(got) and got[i] != exp[i]]
+            cls = "importer-reassigns-export" if others else "imported-name-not-a-variable-of-the-importer"
+            failing += 1
+            if failing > 6:
+                continue              # one cause fails a whole row of these programs: six are written out, the rest counted
+            ctx.report(cls, "%s (%s): exit %d, printed %r, expected %r%s" % (
+                cid, how, r[0], got, exp, "; the module's own view / another importer's view of the export changed with the importer's variable" if others else ""),
+                {"case": cid, "files": files, "expected": exp, "observed": got, "rc": r[0], "stderr": r[2][-500:],
+                 "lines": "main start, init counter, init other, importer's value before, importer's value after, the module's own view, a second importer's view (through the module value), init third, a later names-importer's view, importer's value again",
+                 "how": "mscript run main.ms -q   /   mscript compile main.ms --quick; mscript execute main.mmm"})
+    ctx.cov["rebinding_imported_names"] = {"programs": len(cases), "rejected": rejected, "failing_runs": failing, "kinds": sorted(REBIND_KINDS),
+                                           "rule": "export kind x (rebind / compound assignment / in-place change) x (module level, block, loop body, `modify` from a function) x 3 import forms; both modes"}
+    return n
 
 
 def run_double_exports(ctx, binary):
